@@ -134,6 +134,7 @@ if __name__ == "__main__":
     elif a[0] == "regress":
         # every stored change must still be caught by the check(s) recorded in its meta.json
         tier = a[a.index("--tier") + 1] if "--tier" in a else "quick"
+        REPO = os.environ.get("SEED_REPO", "/repo")   # a mirror (its own checkout + its own copy of this directory) can run a share of the seeds
         only = a[1].split(",") if len(a) > 1 and not a[1].startswith("--") else None
         bad = 0
         for d in sorted(glob.glob(os.path.join(VERIF, "seeded", "*"))):
@@ -142,10 +143,10 @@ if __name__ == "__main__":
                 continue
             meta = json.load(open(os.path.join(d, "meta.json")))
             checks = sorted(c for c, v in (meta.get("detected_by") or {}).items() if v) or [name[:3]]
-            rc, out = sh("git -C /repo status --short")
+            rc, out = sh("git -C %s status --short" % REPO)
             if out.strip():
-                print("ERROR /repo not clean"); sys.exit(2)
-            rc, out = sh("git -C /repo apply %s" % os.path.join(d, "patch.diff"))
+                print("ERROR %s not clean" % REPO); sys.exit(2)
+            rc, out = sh("git -C %s apply %s" % (REPO, os.path.join(d, "patch.diff")))
             if rc:
                 print("%s: patch no longer applies" % name); bad += 1; continue
             try:
@@ -154,7 +155,7 @@ if __name__ == "__main__":
                     rc, out = sh("bin/check %s %s 2>&1 | grep -E '^VIOLATION|TOOL-ERROR' | head -3" % (c, tier), cwd=VERIF, timeout=7200)
                     verdict[c] = "VIOLATION" in out
             finally:
-                sh("git -C /repo checkout -- .")
+                sh("git -C %s checkout -- ." % REPO)
             ok = all(verdict.values())
             bad += 0 if ok else 1
             print("%s: %s %s" % (name, "caught" if ok else "MISSED", verdict), flush=True)
